@@ -31,8 +31,19 @@ def gen_cases(tier, seed):
 
 def open_codes():
     # (the OPEN message is packed and sent inside _open's dynamic extent: a preemption there is a preemption "inside an open")
-    return [repo.adb_device.AdbDevice._open.__code__, repo.hidden_helpers._AdbTransactionInfo.__init__.__code__, repo.adb_message.AdbMessage.pack.__code__,
-            repo.adb_message.AdbMessage.__init__.__code__, repo.adb_device._AdbIOManager.send.__code__, repo.adb_device._AdbIOManager._send.__code__]
+    codes = [repo.adb_device.AdbDevice._open.__code__, repo.hidden_helpers._AdbTransactionInfo.__init__.__code__, repo.adb_message.AdbMessage.pack.__code__,
+             repo.adb_message.AdbMessage.__init__.__code__, repo.adb_device._AdbIOManager.send.__code__, repo.adb_device._AdbIOManager._send.__code__]
+    # ... and whatever else in AdbDevice touches the id counter (helpers that a refactoring splits off _open are found by what they use, not by their names)
+    for name, obj in vars(repo.adb_device.AdbDevice).items():
+        fn = obj.fget if isinstance(obj, property) else obj
+        code = getattr(fn, "__code__", None)
+        stack = [code] if code is not None else []
+        while stack:
+            c = stack.pop()
+            if any(n in ("_local_id", "_local_id_lock") for n in c.co_names) and c not in codes:
+                codes.append(c)
+            stack.extend(k for k in c.co_consts if hasattr(k, "co_code"))
+    return codes
 
 
 def run_case(case):
@@ -110,6 +121,10 @@ def run_case(case):
         for _ in range(rng.choice([1, 2, 3])):
             keep = rng.random() < 0.5
             mine.append(c06.sh("o%d" % k if not same_cmd else "same", 2, op="streaming_shell" if keep else "shell", take=1 if keep else None))
+            k += 1
+        if not same_cmd and (a + int(str(case["seed"]).split(":")[-1].strip("abcdefghijklmnopqrstuvwxyz") or 0)) % 4 == 0:
+            # an operation that opens a nested stream while its own is open (the size query of a pull with a progress callback)
+            mine.insert(len(mine) // 2, c06.pl("/n%d" % k, 150, cb="ok"))
             k += 1
         steps.append(mine)
     dims = {"maxdata": 4096, "remote": rng.choice(gen.REMOTE_REGIMES), "id_start": case["start"], "frag": "whole", "empty_rate": 0.0, "noise": []}
